@@ -14,7 +14,7 @@ K_CAP = {"quick": 40, "thorough": 120}
 
 
 def generate(prop, seed, tier):
-    desc, rng = gen_history(seed, tier, n_ops=(0, 4), allow=("run", "fail", "update", "delete", "fresh"),
+    desc, rng = gen_history(seed, tier, n_ops=(0, 4), allow=("run", "fail", "update", "delete", "fresh", "bump", "bump"),
                             final_run=True, genkw=dict(durs=(0.0, 0.0, 1.0, 2.0)))
     desc["tier"] = tier
     last = desc["ops"][-1]
@@ -65,7 +65,7 @@ def execute(prop, desc):
 
 
 def _execute(prop, desc, hist):
-    world = desc["world"]
+    world = hist.world
     st0 = _state(hist)
     idx = len(desc["ops"]) - 1
     op = desc["ops"][-1]
